@@ -65,6 +65,10 @@ CTYPES = [b"text/plain", b"text/plain; charset=utf-8", b"application/json", b"te
           b"text/plain; charset=utf-16", b"application/octet-stream", b"text/html; charset=bogus"]
 
 
+import re as _re_mod
+_re_dot = _re_mod.compile(rb"/\.\.?(/|$)")          # a literal dot segment in a path
+
+
 def worker_main():
     """fresh-state worker: one JSON case per line in, its text classification and exports out; it never runs a history"""
     chk = Check()
@@ -101,10 +105,26 @@ class Check(PropertyCheck):
                   "raw_chunked_parses_back (the chunk-framed raw export reads back for every content), isChunked_case_insensitive. "
                   "Round 5: url_argument_dials_request_host - the URL argument is C33's transcription of url.unparse/hostport "
                   "(driver op `url` ties it to the real function) and, read back the way a client reads an authority, names exactly "
-                  "the request's host (IPv6 literals in brackets) and port, for every host a URL can carry.")
+                  "the request's host (IPv6 literals in brackets) and port, for every host a URL can carry. Round 6: "
+                  "curl_sends_every_header (curl's reading of a -H argument, `sentHeader`: no header is lost, an empty value travels as "
+                  "`Name;`) with old_empty_header_dropped_counterexample, curl_url_taken_literally (--globoff whenever the URL holds "
+                  "[ ] { }), httpie_items_read_back_partial + httpie_old_empty_header_counterexample. THE HTTPIE CLAUSE IS PROVED ONLY UP "
+                  "TO THE ARGV (one command, argv = [http, METHOD, URL, items]); `httpie_argv_shape` merely restates the definition; "
+                  "httpie's reading of the items is modelled from its documented grammar for header items only and tied to nothing "
+                  "(httpie is not installed).")
     level_note = ("POSIX shell semantics are modelled for the emitted constructs only and validated against dash and bash, not "
-                  "proved of any shell; NUL cannot be passed in argv and is excluded from generated fields; httpie is not "
-                  "installed: its reading of the argv is taken as [http, METHOD, URL, 'name: value'...]; pretty_host, get_text and content decoding are library "
+                  "proved of any shell; NUL cannot be passed in argv and is excluded from generated fields. CURL: `decodeCurl` / "
+                  "`sentHeader` are a hand-written model of curl's option parser and -H handling; the driver compares them with the "
+                  "harness's Python twins (`_curl_semantics`, `_sent_header`: ops `curl`, `sent`), and the twins - not the Lean functions "
+                  "directly - are compared with the REAL /usr/bin/curl 7.88 by the `curlreal` cases (~12% of the cases: the exported "
+                  "command's argv is handed to curl with every connection redirected to a listener on 127.0.0.1; method, request "
+                  "target, header lines and body that curl sends are compared with the twins' reading and with the request). That "
+                  "chain found two genuine defects, both fixed in /repo: empty-valued headers dropped ('Name: ') and URL globbing of "
+                  "[ ] { }. curlreal covers http URLs, token methods and header names, values without line breaks, UTF-8 text bodies "
+                  "not starting with '@'; curl options other than -X -H -d --compressed --resolve --globoff are never emitted. HTTPIE is "
+                  "not installed: the oracle compares the argv with [http, METHOD, URL, 'name: value' | 'name;' ...] and nothing reads "
+                  "that argv the way httpie does except the untied model `httpieItem` (header items only; no `\\` escapes, no data/file "
+                  "items, not the METHOD/URL positional rules, not httpie's own default headers Accept/User-Agent/Content-Type); pretty_host, get_text and content decoding are library "
                   "answers; url.unparse / hostport are transcribed (C33) and tied, while WHICH host and port pretty_url feeds into it "
                   "(Host header vs request.host) stays an input. 'Exactly that method' is read as Request.method (the data "
                   "model upper-cases the wire bytes), 'that URL' as pretty_url or url (they differ only when the Host header has "
@@ -121,7 +141,8 @@ class Check(PropertyCheck):
                   "export must merely not be refused and must equal the fresh-state export); httpie with a body is not run under "
                   "/bin/sh (`<<<` is a syntax error there); the raw clause applies only to requests HTTP/1 can represent (token-ish "
                   "method/target, no CR/LF/NUL or outer whitespace in values, Content-Length consistent or chunked final coding "
-                  "without Content-Length); recorded findings F-C48b/c/d are excused by exact-value classifiers with a self-test.")
+                  "without Content-Length); recorded findings F-C48b/c/d (body) and F-C48f (empty-valued header whose name contains ';') are excused by exact "
+                  "classifiers with a self-test.")
     technique = "Lean 4 proof (induction over arguments/bytes) + execution of the real exports under real shells with stub programs"
     rule = ("requests with ~60% plain and ~40% hostile material (shell metacharacters, quotes, control characters, %, "
             "backslashes, non-UTF-8 bytes; never NUL) in method, host, path, header names and values; Transfer-Encoding in its equivalent spellings (Chunked, CHUNKED, 'gzip, Chunked', inner "
@@ -447,7 +468,7 @@ class Check(PropertyCheck):
         t = threading.Thread(target=serve); t.start()
         out = os.path.join(self.tmp, "curl-out-%d" % os.getpid())
         r = subprocess.run([self.CURL, "-q", "-s", "--max-time", "4", "--noproxy", "*", "--connect-to", "::127.0.0.1:%d" % port, "-o", out]
-                           + args, capture_output=True, stdin=subprocess.DEVNULL, env={"PATH": "/usr/bin:/bin", "HOME": self.tmp})
+                           + args, capture_output=True, stdin=subprocess.DEVNULL, env={"PATH": "/usr/bin:/bin", "HOME": self.tmp, "LC_ALL": "C.UTF-8"})
         t.join(); srv.close()
         return r.returncode, (got[0] if got else None)
 
@@ -457,6 +478,11 @@ class Check(PropertyCheck):
         if not self._plain_host(case) or not re.fullmatch(rb"/[!-~]*", unhx(case["path_hex"])) or b"#" in unhx(case["path_hex"]): return False
         for n, v in case["headers"]:
             if not refparsers.TOKEN.match(unhx(n)) or any(ch in unhx(v) for ch in b"\r\n\x00"): return False
+        if case["content_hex"] is not None:
+            body = unhx(case["content_hex"])
+            try: body.decode("utf-8")                      # the body clause is about UTF-8 text (other charsets: lenient branch)
+            except UnicodeDecodeError: return False
+            if body.startswith(b"@") or b"\x00" in body: return False
         return True
 
     def _impl_curlreal(self, case):
@@ -465,9 +491,15 @@ class Check(PropertyCheck):
         tctx = self._ctx()
         tctx.options.export_preserve_original_ip = False
         f = self._flow(case)
-        cmd = export.formats["curl"](f).encode("utf-8", "surrogateescape")
+        from mitmproxy import exceptions
+        try:
+            cmd = export.formats["curl"](f).encode("utf-8", "surrogateescape")
+        except exceptions.CommandError:
+            raise Skip()                                  # not a text body under its declared charset: outside this kind
         run = self._shell("bash", cmd, False, "fn")
-        obs = {"kind": "curlreal", "cmd_hex": hx(cmd), "run": run, "api_method_hex": hx(f.request.method.encode("utf-8", "surrogateescape"))}
+        fresh = self._fresh({k: v for k, v in case.items() if k != "op"})
+        obs = {"kind": "curlreal", "cmd_hex": hx(cmd), "run": run, "api_method_hex": hx(f.request.method.encode("utf-8", "surrogateescape")),
+               "text_hex": fresh.get("text_hex"), "clean_content_hex": case["content_hex"]}
         if not run["parse_ok"] or len(run["inv"]) != 1 or run["rc"] != 0 or run["stderr"]:
             obs["raw"] = None; return obs
         argv = [unhx(x) for x in run["inv"][0]]
@@ -511,7 +543,8 @@ class Check(PropertyCheck):
         missing = [h for h in want if h not in have]
         if missing: fails.append(f"curlreal: request headers {missing!r} are not among what curl sent {have!r}")
         has_ctl = any(ch < 32 for ch in body)
-        if body and not (has_ctl and body.endswith(b"\n")) and m["body"] != body:      # trailing newline: finding F-C48b (argv level)
+        tb = self._text_body(case, obs)       # same domain as the argv-level body clause: UTF-8 text under a UTF-8 / UTF-8-inferred charset
+        if tb is not None and not (has_ctl and body.endswith(b"\n")) and m["body"] != body:      # trailing newline: finding F-C48b (argv level)
             fails.append(f"curlreal: curl sent the body {m['body']!r}, the request's is {body!r}")
         return fails
 
@@ -693,7 +726,7 @@ class Check(PropertyCheck):
     @staticmethod
     def _curl_semantics(argv):
         """curl's reading of its command line (the options the exporter may use)"""
-        out = {"method": None, "H": [], "compressed": False, "resolve": [], "data": None, "urls": [], "unknown": []}
+        out = {"method": None, "H": [], "compressed": False, "globoff": False, "path_as_is": False, "resolve": [], "data": None, "urls": [], "unknown": []}
         i = 1
         while i < len(argv):
             a = argv[i]
@@ -706,6 +739,8 @@ class Check(PropertyCheck):
                 else: out["resolve"].append(v)
                 continue
             if a == b"--compressed": out["compressed"] = True
+            elif a == b"--globoff": out["globoff"] = True
+            elif a == b"--path-as-is": out["path_as_is"] = True
             elif a.startswith(b"-"): out["unknown"].append(a)
             else: out["urls"].append(a)
             i += 1
@@ -793,6 +828,11 @@ class Check(PropertyCheck):
                     if c["unknown"]: fails.append(f"{tag}: curl would read {c['unknown'][0]!r} as an option")
                     if c["eff_method"] != method: fails.append(f"{tag}: method sent by curl is {c['eff_method']!r}, request has {method!r}")
                     if len(c["urls"]) != 1 or c["urls"][0] not in urls: fails.append(f"{tag}: url arguments {c['urls']!r} != one of {urls!r}")
+                    elif not c["path_as_is"] and _re_dot.search(c["urls"][0].split(b"://", 1)[-1].partition(b"/")[2].split(b"?")[0].join([b"/", b""])):
+                        fails.append(f"{tag}: url {c['urls'][0]!r} has dot segments in its path and --path-as-is is not given: curl would remove them")
+                    elif not c["globoff"] and any(ch in c["urls"][0].split(b"://", 1)[-1].partition(b"/")[2] for ch in b"[]{}"):
+                        # curl expands [ ] { } in a URL as globbing patterns (one request per expansion) unless --globoff is given
+                        fails.append(f"{tag}: url {c['urls'][0]!r} contains curl globbing characters and --globoff is not given: curl would expand it")
                     elif self._plain_host(case):
                         d = self._dial(c["urls"][0])
                         if not self._dial_ok(case, d):
